@@ -86,6 +86,42 @@ pub fn for_each_any(
         }
     }
     rep.add("any_combinations", combos.len() as u64);
+    // nested combinators: any([any([x]), any([y, z])]) and any([any([x, y]), any([z])]) over a
+    // tiny pool (a flat combinator of the same members is in the list above)
+    let tiny: Vec<&str> = ["", "a", "b", "?", "[ab]", "*", "/", "a/**", "b/**", "**/a", "**", "a/b", "<a/>"]
+        .into_iter()
+        .filter(|t| model::build_ok(t).is_some())
+        .collect();
+    let mut nested: Vec<(Vec<&str>, Vec<&str>)> = vec![];
+    for x in &tiny {
+        for y in &tiny {
+            for z in &tiny {
+                nested.push((vec![*x], vec![*y, *z]));
+                nested.push((vec![*x, *y], vec![*z]));
+            }
+        }
+    }
+    rep.add("nested_any_combinations", nested.len() as u64);
+    nested.par_iter().for_each(|(left, right)| {
+        let mut c = Counters::new();
+        let built = guard(|| -> Option<Any<'_>> {
+            let l = wax::any(left.iter().copied()).ok()?;
+            let r = wax::any(right.iter().copied()).ok()?;
+            wax::any([l, r]).ok()
+        });
+        match built {
+            Ok(Some(any)) => {
+                bump(&mut c, "nested_any_built", 1);
+                let flat: Vec<&str> = left.iter().chain(right.iter()).copied().collect();
+                if guard(|| f(&flat, &any, &mut c)).is_err() {
+                    bump(&mut c, "skipped_panics", 1);
+                }
+            },
+            Ok(None) => bump(&mut c, "any_rejected", 1),
+            Err(_) => bump(&mut c, "skipped_panics", 1),
+        }
+        rep.merge(&c);
+    });
     combos.par_iter().for_each(|combo| {
         let mut c = Counters::new();
         match guard(|| wax::any(combo.iter().copied())) {
